@@ -556,11 +556,66 @@ def triple_clauses(pid, bench, items):
     import itertools
     mk = lambda c, v: VersionConstraint(comparator=c, version=v)   # noqa: E731
     R = bench.rclass
+    if pid == "C10":
+        # "the result is the same for any ordering or duplication of the list"
+        star = VersionConstraint(comparator="*", version_class=bench.cls)
+        ranges = [R(constraints=[star])]
+        for _t, v in items:
+            for c in (">=", "!=", "<"):
+                try:
+                    ranges.append(R(constraints=[mk(c, v)]))
+                except Exception:  # noqa: BLE001
+                    pass
+        texts = [t for t, _v in items]
+        for r in ranges:
+            seen = {}
+            for order in list(itertools.permutations(texts)) + [tuple(texts) + tuple(texts[:1])]:
+                try:
+                    n = str(r.normalize(list(order)))
+                except Exception as e:  # noqa: BLE001
+                    n = "raise:" + exc_name(e)
+                seen.setdefault(n, list(order))
+            if len(seen) > 1:
+                (n1, o1), (n2, o2) = list(seen.items())[:2]
+                yield ("normalising against the same known versions in another order gives another range",
+                       {"range": str(r), "known_1": o1, "normalized_1": n1, "known_2": o2, "normalized_2": n2})
+                return
+        if S.rclass(bench.name):
+            seen = {}
+            for order in itertools.permutations(texts):
+                try:
+                    n = str(R.from_versions(list(order)))
+                except Exception as e:  # noqa: BLE001
+                    n = "raise:" + exc_name(e)
+                seen.setdefault(n, list(order))
+            if len(seen) > 1:
+                (n1, o1), (n2, o2) = list(seen.items())[:2]
+                yield ("a range built from the same versions in another order is another range",
+                       {"versions_1": o1, "range_1": n1, "versions_2": o2, "range_2": n2})
+        return
     for pat in TRIPLE_PATTERNS:
         for assign in itertools.permutations(items):
             cons = [(c, t, v) for c, (t, v) in zip(pat, assign)]
             texts, members = {}, {}
             raised = None
+            if pid == "C07":
+                # validation reads the list in version order: what it answers does not depend on the order given
+                answers = {}
+                for order in itertools.permutations(cons):
+                    try:
+                        VersionConstraint.validate([mk(c, v) for c, _t, v in order])
+                        a = "accepted"
+                    except ValueError:
+                        a = "ValueError"
+                    except Exception as e:  # noqa: BLE001
+                        a = "raise:" + exc_name(e)
+                    answers.setdefault(a, [c + t for c, t, _v in order])
+                if len(answers) > 1:
+                    (a1, o1), (a2, o2) = list(answers.items())[:2]
+                    yield ("validation answers differently for the same constraints given in another order",
+                           {"given_1": o1, "answer_1": a1, "given_2": o2, "answer_2": a2})
+                    return
+                continue
             for order in itertools.permutations(cons):
                 try:
                     r = R(constraints=[mk(c, v) for c, _t, v in order])
@@ -629,7 +684,7 @@ def probe_unrankable(ctx, pid, bench):
     """run the direct clauses of `pid` on the versions the pool could not rank; report each failure as a violation"""
     stream = "unrankable:" + bench.name
     _more_unrankable(ctx, pid, bench)
-    if pid in ("C04", "C13", "C17"):
+    if pid in ("C04", "C07", "C10", "C13", "C17"):
         probe_cycles(ctx, pid, bench)
     for ta, a, tb, b in unrankable_pairs(bench):
         ctx.count(stream, key=(ta, tb), nontrivial=True)
